@@ -474,7 +474,12 @@ fn long_run_observed(text: &str) -> Result<std::collections::BTreeMap<String, St
 fn long_runs(w: &mut Worker) {
     // a case of this family may kill the process (a stack that overflows): pin it to the case
     w.risky = true;
+    // the largest nests take about ten seconds of processor time on an idle machine and several times
+    // that on a loaded one (caches and hyper-threads are shared): the watchdog of this family is generous,
+    // a loop that really does not end is still cut
+    w.set_case_limit_ms(240_000);
     long_runs_inner(w);
+    w.set_case_limit_ms(20_000);
     w.risky = false;
 }
 
